@@ -41,7 +41,16 @@ CONSTANTS MaxReq,        \* max request header tokens
 
 VARIABLE c               \* the case
 
-AllDeviations == {"ClientCorrKept", "DupRequestId", "H1TrailerIdentity", "TrailerCorr", "NominatedToH2"}
+\* Open known findings (known_findings.json), each a switchable branch modelling what the code does:
+\*  NominatedToH2      a field nominated by the client's Connection header (RFC 9110 7.6.1) is forwarded
+\*                     to an HTTP/2 backend (the converter only drops the fixed RFC 9113 8.2.2 list);
+\*  H1TrailerIdentity  identity fields (X-Real-IP, X-Forwarded-For, Forwarded, X-Request-Id, correlation
+\*                     header) sent as HTTP/1.1 chunked trailers reach the backend (only HTTP/2 trailers
+\*                     are filtered, pkawa::handle_trailer);
+\*  TrailerCorr        the correlation header sent as an HTTP/2 trailer reaches the backend (handle_trailer
+\*                     filters four fixed names, not the configured correlation header name).
+AllDeviations == {"H1TrailerIdentity", "TrailerCorr", "NominatedToH2"}
+ASSUME Deviations \subseteq AllDeviations
 
 ---------------------------------------------------------------------------
 (* Alphabets *)
@@ -146,9 +155,8 @@ WalkEl(k, req, i) ==
   LET t == req[i] IN
   CASE t \in CookieTokens -> <<>>
     [] t = "xri" /\ k.elide -> <<>>
-    [] t = "corr" /\ "ClientCorrKept" \notin Deviations -> <<>>                      \* elided like X-Real-IP
-    [] t \in {"rid1", "rid2"} /\ "DupRequestId" \notin Deviations
-         /\ i # LastIdx(req, {"rid1", "rid2"}) -> <<>>                               \* only the last one is kept
+    [] t = "corr" -> <<>>                                   \* a client-supplied correlation header is elided
+    [] t \in {"rid1", "rid2"} /\ i # LastIdx(req, {"rid1", "rid2"}) -> <<>>     \* only the last request id is kept
     [] t = "xff" /\ i = LastIdx(req, {"xff"}) -> << El(Name(t), <<Tok(t), IpAtom(k)>>, "client") >>
     [] t = "fwd" /\ i = LastIdx(req, {"fwd"}) -> << El(Name(t), <<Tok(t), FwdAtom(k)>>, "client") >>
     [] OTHER -> << El(Name(t), <<Tok(t)>>, "client") >>
@@ -206,12 +214,14 @@ EditRequest(k, req, tr) ==
 
 RespWalk(resp) == [i \in DOMAIN resp |-> El(Name(resp[i]), <<Tok(resp[i])>>, "backend")]
 
-\* on_response_headers
-RespEditor(k, req, resp) ==
-     RespWalk(resp)
-  \o (IF k.stickyCluster /\ StickyFound(k, req) # "good"
-      THEN << El("set-cookie", <<Sym("STICKYSET", k.stickyName)>>, "proxy") >> ELSE <<>>)
-  \o << El("CORR", <<IdAtom>>, "proxy") >>
+\* on_response_headers. The sticky Set-Cookie is pushed when the router selected a backend for THIS request
+\* on a sticky cluster and the client did not present that backend's id; when a multiplexed backend
+\* connection is reused the router does not select again and the cookie is not announced: the function
+\* leaves it free (StickyMay), the property only bounds it.
+StickyMay(k, req) ==
+  IF k.stickyCluster /\ StickyFound(k, req) # "good"
+  THEN << El("set-cookie", <<Sym("STICKYSET", k.stickyName)>>, "proxy") >> ELSE <<>>
+RespEditor(k, req, resp) == RespWalk(resp) \o << El("CORR", <<IdAtom>>, "proxy") >>
 
 \* apply_response_header_edits: operator edits, then the listener's HSTS default (SetIfAbsent)
 FrontendRespEdits(k, resp, hs) ==
@@ -225,7 +235,8 @@ FrontConvert(k, hs) ==
   IF k.fp.front = "h2" THEN SelectSeq(hs, LAMBDA e : e.n \notin ConnSpecificNames) ELSE hs
 
 EditResponse(k, req, resp) ==
-  [hdrs |-> FrontConvert(k, FrontendRespEdits(k, resp, RespEditor(k, req, resp)))]
+  [hdrs |-> FrontConvert(k, FrontendRespEdits(k, resp, RespEditor(k, req, resp))),
+   may  |-> StickyMay(k, req)]            \* elements that may additionally be present (at most once each)
 
 ---------------------------------------------------------------------------
 (* The property *)
@@ -294,8 +305,7 @@ P_Request(k, req, tr) ==
 
 \* responses reach the client intact plus only the documented additions
 AllowedRespAdditions(k, req, resp) ==
-     (IF k.stickyCluster /\ StickyFound(k, req) # "good" THEN {El("set-cookie", <<Sym("STICKYSET", k.stickyName)>>, "proxy")} ELSE {})
-  \cup {El("CORR", <<IdAtom>>, "proxy")}
+     {El("CORR", <<IdAtom>>, "proxy")}
   \cup (IF k.hsts /\ ~Has(resp, {"sts"}) THEN {El("strict-transport-security", <<Sym("HSTS", "listener")>>, "proxy")} ELSE {})
   \cup (IF k.edits = "set" THEN {El("x-rop", <<Sym("LIT", "ropv")>>, "op")} ELSE {})
 P_Response(k, req, resp) ==
@@ -307,6 +317,9 @@ P_Response(k, req, resp) ==
      /\ {o.hdrs[i] : i \in {j \in DOMAIN o.hdrs : o.hdrs[j].src # "backend"}} = AllowedRespAdditions(k, req, resp)
      /\ Cardinality({j \in DOMAIN o.hdrs : o.hdrs[j].src # "backend"}) = Cardinality(AllowedRespAdditions(k, req, resp))
      /\ k.fp.front = "h2" => \A i \in DOMAIN o.hdrs : o.hdrs[i].n \notin ConnSpecificNames
+     \* the only optional addition is the cluster's sticky cookie, and only where one is due
+     /\ \A i \in DOMAIN o.may : /\ o.may[i] = El("set-cookie", <<Sym("STICKYSET", k.stickyName)>>, "proxy")
+                                /\ k.stickyCluster /\ StickyFound(k, req) # "good"
 
 P_C13 == /\ P_Request(c.k, c.req, c.tr)
          /\ (EditRequest(c.k, c.req, c.tr).outcome = "forward" => P_Response(c.k, c.req, c.resp))
@@ -392,10 +405,20 @@ Hash(s) == (HashSeq(ReqTokSeq, s.req, 7) * 131 + HashSeq(TrTokSeq, s.tr, 3) * 17
 \* always emitted: the sampling only thins the bulk
 Selected(s) == Complete(s) /\ Hash(s) % SampleMod = SampleRes % SampleMod
 
+\* which open deviations shape the prediction of this case (for the evidence: known findings seen in replay)
+DevRelevant(d, s) ==
+  /\ d \in Deviations
+  /\ ~FrontRejects(s.k, s.req)
+  /\ CASE d = "NominatedToH2"     -> s.k.back = "h2c" /\ Has(s.req, {"cHop"}) /\ Has(s.req, {"hop"})
+       [] d = "H1TrailerIdentity" -> s.k.fp.front = "h1" /\ \E i \in DOMAIN s.tr : Name(s.tr[i]) \in IdentityNames
+       [] d = "TrailerCorr"       -> s.k.fp.front = "h2" /\ Has(s.tr, {"tCorr"})
+       [] OTHER -> FALSE
+
 EmitCase ==
   (Emit /\ Selected(c)) =>
     PrintT(<<"REPLAY", ToJson([k |-> c.k, req |-> c.req, tr |-> c.tr, resp |-> c.resp, h |-> Hash(c),
                                found |-> StickyFound(c.k, c.req),
+                               devs |-> {d \in Deviations : DevRelevant(d, c)},
                                ereq |-> EditRequest(c.k, c.req, c.tr),
                                eresp |-> EditResponse(c.k, c.req, c.resp)])>>)
 =============================================================================
